@@ -372,7 +372,7 @@ TEXT_CHECKS = {
     'check_dfa_syntax': lambda t: nb.check_dfa_syntax(t['dfa']),
     'check_nfa_syntax': lambda t: nb.check_nfa_syntax(t['nfa']),
     # round 8: the remaining text-level entry points of the notebooks
-    'check_pda_language_from_words': lambda t: nb.check_pda_language_from_words(t['pda'], t['words'], 2, t['max_states']),
+    'check_pda_language_from_words': lambda t: nb.check_pda_language_from_words(t['pda'], t['words'], 1, t['max_states']),
     'check_tm_language_from_words': lambda t: nb.check_tm_language_from_words(t['tm'], t['words'], 2, t['max_states']),
     'check_cfg_language_from_words': lambda t: nb.check_cfg_language_from_words(t['cfg'], t['words'], 3),
     'check_regexp_language_from_words': lambda t: nb.check_regexp_language_from_words(t['regexp'], t['words'], 3),
@@ -384,7 +384,7 @@ TEXT_CHECKS = {
     'check_tm_syntax': lambda t: nb.check_tm_syntax(t['tm']),
     'dfa_language': lambda t: nb.dfa_language(t['dfa'], t['n']),
     'nfa_language': lambda t: nb.nfa_language(t['nfa'], t['n']),
-    'pda_language': lambda t: nb.pda_language(t['pda'], min(t['n'], 2)),
+    'pda_language': lambda t: nb.pda_language(t['pda'], min(t['n'], 1)),
     'tm_language': lambda t: nb.tm_language(t['tm'], min(t['n'], 2)),
     'cfg_language': lambda t: nb.cfg_language(t['cfg'], min(t['n'], 3)),
     'regexp_language': lambda t: nb.regexp_language(t['regexp'], min(t['n'], 3)),
@@ -755,7 +755,7 @@ def _wordlist(L, wrong, rng):
 def _text_check_more(rng, made, sigma, name, wrong, dfas, nfas, cfgs):
     t = {'n': rng.randint(0, 4), 'max_states': rng.choice([0, 0, 2, 9])}
     pdas = [m for m in made if m['kind'] == 'pda' and len(m['eps']) == 1 and all(len(x) == 1 for x in m['Gamma'] + m['Sigma']) and len(m['Q']) <= 8
-            and all(q.isalnum() for q in m['Q'])]
+            and all(q.isalnum() for q in m['Q']) and rpda.closure_sizes(m, '', 200)[1]]     # the large-closure families are exercised at object level
     tms = [m for m in made if m['kind'] == 'tm' and all(q.isalnum() for q in m['Q'])]
     rxs = [m for m in made if m['kind'] == 'regexp' and rrx.size(m['tree']) <= 30]
     if 'pda' in name:
@@ -767,7 +767,7 @@ def _text_check_more(rng, made, sigma, name, wrong, dfas, nfas, cfgs):
             t['pda'] = t['pda'].replace('initial ', 'initial zz', 1)
         if name == 'check_pda_language_from_words':
             try:
-                L = [w for w in fa.words_upto(sorted(P['Sigma']), 2) if rpda.accepts(P, w)]
+                L = [w for w in fa.words_upto(sorted(P['Sigma']), 1) if rpda.accepts(P, w)]
             except Exception:
                 L = []
             t['words'] = _wordlist(L, wrong, rng)
@@ -856,6 +856,7 @@ def gen_session(rng, n_calls):
         else:
             a = genpda.abstract_pda(rng, nmax=3, tmax=5)
         s, _r = genfa.rename(a, rng, eps_choices=('_', 'ε'))
+        s['dd'] = rng.random() < 0.7        # else a plain dict that has only the keys of the transitions
         m = dict(zip(sorted(s['Sigma']), sigma + [c for c in 'uvw' if c not in sigma]))
         # keep the session alphabet: map input symbols onto sigma (cyclically)
         inv = {x: sigma[i % len(sigma)] for i, x in enumerate(sorted(s['Sigma']))}
@@ -884,7 +885,7 @@ def gen_session(rng, n_calls):
         special_tm = len(kinds) - 1
     elif r0 < 0.8:
         # words of one length of which one is given up (runs for ever) and one is accepted after most of the step budget
-        s, _r = gentm.rename(gentm.slow_or_loop_tm(rng, budget=rng.choice([100, 1000, 1000])), rng)
+        s, _r = gentm.rename(gentm.slow_or_loop_tm(rng, budget=rng.choice([100, 100, 1000])), rng)
         make(s)
         special_tm = len(kinds) - 1
     for i in range(rng.randint(2, 3)):
@@ -1178,6 +1179,7 @@ def run_case(case, env):
         out['evals'] += 1
         out['ticks'] += ticks
         out['hist']['op_' + site] = out['hist'].get('op_' + site, 0) + 1
+        out['hist']['kticks_' + site] = out['hist'].get('kticks_' + site, 0) + ticks // 1000
         if d == 'timeout':
             out['probes']['tick_budget_exceeded'] = 1
         # argument integrity: every pool object other than the step's own result is unchanged
